@@ -27,6 +27,9 @@ class VLoop(asyncio.BaseEventLoop):
         self.set_exception_handler(self._on_exc)
         self.readers: dict = {}
         self.batches = 0
+        self.coalesce = 0.0  # loop lateness: timers due within this many seconds of the earliest share its iteration
+        self.batch_cost = 0.0  # virtual seconds one loop iteration takes (0: callbacks are instantaneous); with a cost, timers
+        # that fall due while ready callbacks are still being worked off join the next iteration behind them, as in _run_once
 
     # -- what BaseEventLoop needs
     def time(self) -> float:
@@ -64,6 +67,8 @@ class VLoop(asyncio.BaseEventLoop):
             if not h._cancelled:
                 h._run()
         self.batches += 1
+        if self.batch_cost:
+            self._vtime += self.batch_cost
         return n
 
     def next_timer(self) -> float | None:
@@ -102,6 +107,8 @@ class VLoop(asyncio.BaseEventLoop):
         steps = 0
         while True:
             while self._ready:
+                if self.batch_cost:
+                    self.fire_due(self._vtime)
                 self.run_batch()
                 steps += 1
                 if steps > max_steps:
@@ -109,13 +116,15 @@ class VLoop(asyncio.BaseEventLoop):
             t = self.next_timer()
             if t is None or t > horizon:
                 return steps
-            self.fire_due(t)
+            self.fire_due(t + self.coalesce)
 
     def quiesce_until(self, pred, horizon: float, max_steps: int = 2_000_000) -> bool:
         """Default schedule until pred() holds at a quiescent point, or `horizon`; -> pred()."""
         steps = 0
         while True:
             while self._ready:
+                if self.batch_cost:
+                    self.fire_due(self._vtime)
                 self.run_batch()
                 steps += 1
                 if steps > max_steps:
@@ -125,7 +134,7 @@ class VLoop(asyncio.BaseEventLoop):
             t = self.next_timer()
             if t is None or t > horizon:
                 return False
-            self.fire_due(t)
+            self.fire_due(t + self.coalesce)
 
     def run_coro(self, coro, horizon: float = 1e9):
         """Run a coroutine to completion on the default schedule; return result / raise."""
